@@ -2,7 +2,7 @@
    table demands them) produces well-formed derivation trees that denote the
    tree they were made from. *)
 From Coq Require Import List NArith ZArith Bool Arith Lia.
-From NV Require Import Syntax.Token Syntax.Ast Syntax.StrEsc Syntax.Parser Syntax.Grammar
+From NV Require Import Syntax.Token Syntax.Ast Syntax.StmtAst Syntax.StrEsc Syntax.Parser Syntax.Grammar
      Syntax.StrEscProofs Syntax.ParserProofs.
 Import ListNotations.
 Local Open Scope nat_scope.
